@@ -10,7 +10,7 @@ import z3
 
 from vf import symx
 from vf.symx import Driver, SymReal
-from vf.common import Check
+from vf.common import Check, stable_hash
 from vf.par import pmap
 from vf.props.c15 import StubRender
 import sfc_models.models
@@ -204,7 +204,7 @@ def histories(tier):
     out = [()]
     for n in (1, 2, 3):
         for h in itertools.product(ops, repeat=n):
-            if n == 3 and tier == 'quick' and (hash(h) % 7):
+            if n == 3 and tier == 'quick' and (stable_hash(h) % 7):
                 continue
             if len(set(h)) < len(h):
                 continue
